@@ -26,6 +26,7 @@ import (
 
 	"github.com/pkg/errors"
 
+	"github.com/oxia-db/oxia/common/compare"
 	"github.com/oxia-db/oxia/common/concurrent"
 	"github.com/oxia-db/oxia/common/constant"
 	time2 "github.com/oxia-db/oxia/common/time"
@@ -86,6 +87,13 @@ func (n *notifications) Deleted(key string) {
 
 func (n *notifications) DeletedRange(keyStartInclusive, keyEndExclusive string) {
 	if strings.HasPrefix(keyStartInclusive, constant.InternalKeyPrefix) {
+		return
+	}
+	if prev, ok := n.batch.Notifications[keyStartInclusive]; ok &&
+		prev.Type == proto.NotificationType_KEY_RANGE_DELETED && prev.KeyRangeLast != nil &&
+		compare.CompareWithSlash([]byte(*prev.KeyRangeLast), []byte(keyEndExclusive)) >= 0 {
+		// The same request already deleted a wider range with the same start key: notifications
+		// are keyed by start key, keep the one that covers both
 		return
 	}
 	n.batch.Notifications[keyStartInclusive] = &proto.Notification{
